@@ -1,5 +1,7 @@
 // C09 (schedules): real LogPrintfFunc -> real Sink / AsyncSink (real AsyncPipe) under engine S.
 // usage: sched_harness <scenario> <buff_size> <bound> [--replay picks]
+// scenarios: 0 one logger x2 | 1 two loggers x2 | 2 two loggers x1 | 3 async sink only, two loggers x2 (all: join, then disable)
+//            4 one logger x2 while main disables both sinks | 5 one logger x3 while main disables, re-enables and finally disables the async sink
 #include "sched/sched.h"
 #include "sched/explore.h"
 #include <tbox/base/log.h>
@@ -29,10 +31,11 @@ struct AsyncRec : AsyncSink {      // asynchronous recorder on the real pipe + r
 struct Expect { std::string sync_line, async_line; };
 std::vector<Expect> g_exp[3]; long g_tid[3];
 
-void do_log(int thr, int idx) {
-  char payload[40]; snprintf(payload, sizeof payload, "payload-t%d-n%d-%s", thr, idx, idx ? "zz" : "a");
+void do_log(int thr, int idx, int seq = -1) {
+  if (seq < 0) seq = idx;
+  char payload[40]; snprintf(payload, sizeof payload, "payload-t%d-n%d-%s", thr, seq, idx ? "zz" : "a");
   static const char *FN[3][2] = {{"fn00", "fn01"}, {"fn10", "fn11"}, {"fn20", "fn21"}};   // like __func__: static storage (the async back-end reads the pointer later)
-  const char *fn = FN[thr][idx]; int line = 100 + thr * 10 + idx; int level = (thr + idx) % 2 ? LOG_LEVEL_INFO : LOG_LEVEL_WARN;
+  const char *fn = FN[thr][idx]; int line = 100 + thr * 10 + seq; int level = (thr + idx) % 2 ? LOG_LEVEL_INFO : LOG_LEVEL_WARN;
   g_tid[thr] = syscall(SYS_gettid);
   char ts[32]; { time_t t = 1700000000; struct tm tm; localtime_r(&t, &tm); strftime(ts, sizeof ts, "%F %H:%M:%S", &tm); }
   char b[512]; Expect e;
@@ -40,7 +43,7 @@ void do_log(int thr, int idx) {
   snprintf(b, sizeof b, "%c %s.%06u %ld %s %s() %s -- %s:%d\n", LOG_LEVEL_LEVEL_CODE[level], ts, 123456u, g_tid[thr], "modX", fn, payload, "file.cpp", line); e.async_line = b;
   g_exp[thr].push_back(e);
   if (idx % 2) LogPrintfFunc("modX", fn, "/some/dir/file.cpp", line, level, 0, payload);          // LogPuts path
-  else LogPrintfFunc("modX", fn, "/some/dir/file.cpp", line, level, 1, "payload-t%d-n%d-%s", thr, idx, idx ? "zz" : "a");   // formatted path
+  else LogPrintfFunc("modX", fn, "/some/dir/file.cpp", line, level, 1, "payload-t%d-n%d-%s", thr, seq, idx ? "zz" : "a");   // formatted path
 }
 
 // every recorded line must be one of the expected lines, each exactly once, per-thread order kept
@@ -53,7 +56,51 @@ std::string check_lines(const std::vector<std::string> &got, bool async, int nth
   return "";
 }
 
+// scenarios 4 and 5: disable() (and a re-enable) CONCURRENT with a logging thread. The property promises a record for every call made
+// while the sink is enabled and none otherwise; a call that overlaps disable()/enable() may go either way, but whatever is delivered must be
+// whole, at most once and in order. Phases of a sink as seen by the harness (written by main, read by the logger around each call):
+//   0 enabled | 1 disable() in progress | 2 disabled | 3 enable() in progress | 4 enabled again | 5 final disable() in progress or done
+// A call that started and returned in the same phase p must be present if p is 0 or 4 and absent if p is 2.
+int g_phase[2];                    // [0] synchronous sink, [1] asynchronous sink
+struct CallObs { int p0[2], p1[2]; }; std::vector<CallObs> g_obs;
+inline int ph(int k) { return __atomic_load_n(&g_phase[k], __ATOMIC_SEQ_CST); }
+inline void set_ph(int k, int v) { __atomic_store_n(&g_phase[k], v, __ATOMIC_SEQ_CST); }
+std::string check_overlap(const std::vector<std::string> &got, bool async) {
+  const int k = async ? 1 : 0; size_t gi = 0; const char *nm = async ? "async" : "sync";
+  for (size_t i = 0; i < g_exp[0].size(); i++) {
+    const std::string &want = async ? g_exp[0][i].async_line : g_exp[0][i].sync_line; const CallObs &o = g_obs[i];
+    bool present = gi < got.size() && got[gi] == want; if (present) gi++;
+    bool same = o.p0[k] == o.p1[k];
+    if (same && (o.p0[k] == 0 || o.p0[k] == 4) && !present) return std::string(nm) + "-sink-lost-a-record-whose-call-returned-before-disable-was-entered(phase" + std::to_string(o.p0[k]) + ",record" + std::to_string(i) + ")" + (gi < got.size() ? ": next line [" + got[gi].substr(0, 80) + "]" : "");
+    if (same && o.p0[k] == 2 && present) return std::string(nm) + "-sink-got-a-record-logged-while-it-was-disabled(record" + std::to_string(i) + ")";
+  }
+  if (gi != got.size()) return std::string(nm) + "-sink-record-corrupted-duplicated-or-out-of-order(concurrent-disable): [" + got[gi].substr(0, 100) + "]";
+  return "";
+}
+std::vector<std::string> split_lines(const std::string &out) { std::vector<std::string> v; size_t a = 0; while (a < out.size()) { size_t b = out.find('\n', a); if (b == std::string::npos) { v.push_back(out.substr(a)); break; } v.push_back(out.substr(a, b - a + 1)); a = b + 1; } return v; }
+
+void scenario_overlap(int scen, int buff) {
+  SyncRec srec; AsyncRec arec; AsyncSink::Config cfg; cfg.buff_size = buff; cfg.buff_min_num = 1; cfg.buff_max_num = 2; cfg.interval = 100; arec.setConfig(cfg);
+  srec.setLevel(LOG_LEVEL_TRACE); arec.setLevel(LOG_LEVEL_TRACE);
+  const bool with_sync = scen == 4, reenable = scen == 5; const int per = reenable ? 3 : 2;
+  set_ph(0, with_sync ? 0 : 2); set_ph(1, 0); g_obs.reserve(8); g_exp[0].reserve(8);
+  if (with_sync) srec.enable(); arec.enable();
+  std::thread lg([per] { for (int i = 0; i < per; i++) { CallObs o; o.p0[0] = ph(0); o.p0[1] = ph(1); g_obs.push_back(o); do_log(0, i % 2, i); CallObs &r = g_obs.back(); r.p1[0] = ph(0); r.p1[1] = ph(1); } });
+  set_ph(1, 1); arec.disable(); set_ph(1, 2);
+  std::string early = arec.out;      // what disable() left behind: nothing may be added to it while the sink stays disabled
+  if (with_sync) { set_ph(0, 1); srec.disable(); set_ph(0, 2); }
+  if (reenable) { set_ph(1, 3); arec.enable(); set_ph(1, 4); }
+  lg.join();
+  if (!reenable && arec.out != early) sched_fail("async-sink-output-grew-after-disable-returned");
+  set_ph(1, 5); arec.disable();
+  std::string v = check_overlap(split_lines(arec.out), true); if (v.empty() && with_sync) v = check_overlap(srec.lines, false);
+  std::string pres; { auto al = split_lines(arec.out); for (auto &l : al) { size_t p = l.find("payload-t"); if (p != std::string::npos) pres += l.substr(p + 11, 2) + ","; } }
+  sched_note("O %s", pres.c_str());
+  if (!v.empty()) { for (auto &c : v) if (c == ' ') c = '_'; sched_fail("%s", v.c_str()); }
+}
+
 void scenario(int scen, int buff) {
+  if (scen >= 4) { scenario_overlap(scen, buff); return; }
   SyncRec srec; AsyncRec arec; AsyncSink::Config cfg; cfg.buff_size = buff; cfg.buff_min_num = 1; cfg.buff_max_num = 2; cfg.interval = 100; arec.setConfig(cfg);
   srec.setLevel(LOG_LEVEL_TRACE); arec.setLevel(LOG_LEVEL_TRACE);
   int nthr = scen == 0 ? 1 : 2; int per = scen == 2 ? 1 : 2;
@@ -63,7 +110,7 @@ void scenario(int scen, int buff) {
   for (auto &x : th) x.join();
   arec.disable();                    // everything logged before must have been delivered when disable() returns
   if (scen != 3) srec.disable();
-  std::vector<std::string> alines; size_t a = 0; while (a < arec.out.size()) { size_t b = arec.out.find('\n', a); if (b == std::string::npos) { alines.push_back(arec.out.substr(a)); break; } alines.push_back(arec.out.substr(a, b - a + 1)); a = b + 1; }
+  std::vector<std::string> alines = split_lines(arec.out);
   std::string v = check_lines(alines, true, nthr); if (v.empty() && scen != 3) v = check_lines(srec.lines, false, nthr);
   std::string order; for (auto &l : alines) { size_t p = l.find("payload-t"); if (p != std::string::npos) order += l.substr(p + 9, 4) + ","; }
   sched_note("O %s", order.c_str());
